@@ -78,10 +78,14 @@ class RandShim:
 
     @staticmethod
     def randint(a: int, b: int) -> PNum:
+        if b < a:
+            raise ValueError(f"empty range in randrange({a}, {b + 1})")
         return RandShim._fresh(a, b)
 
     @staticmethod
     def randrange(n: int) -> PNum:
+        if n <= 0:
+            raise ValueError("empty range for randrange()")
         return RandShim._fresh(0, n - 1)
 
     @staticmethod
